@@ -343,6 +343,7 @@ func c09Replay(args common.Args, out *common.Out) error {
 	}
 	_ = big.NewInt
 	_ = unsafekzg.NewSRS
+	c19Register() // the "gkr" corpus circuit needs its Fiat-Shamir hash
 	common.ParallelFor(len(behs), args.Int("par", 8), func(i int) {
 		out.Emit(c09Run(&behs[i]))
 	})
